@@ -102,6 +102,10 @@ def check(an: Analysis) -> None:
         ob.inst(fi, n)
         ob.fail(fi, n, "the cache cancels something: an in-flight invocation must never be cancelled by expiry, eviction or a leaving waiter")
 
+    # ------------------------------------------------------------------ C13.5 entries leave the store only by expiry / eviction
+    _borrowed_c12(an)
+
+
 
 def liveness(fixtures: str) -> list[dict]:
     import os
@@ -111,3 +115,10 @@ def liveness(fixtures: str) -> list[dict]:
     if not hits:
         raise AnalysisError("rule C13.4 (.cancel() in the caching module) no longer fires on its fixture")
     return [{"rule": "C13.4", "fixture": "fixtures/c13_cancel", "matches": len(hits)}]
+
+
+def _borrowed_c12(an: Analysis) -> None:
+    from ..engine import borrow
+    from . import c12
+
+    borrow(an, c12.check, {"C12.7": "C13.5"}, keep=lambda f: "_AsyncCache" in f.at)
